@@ -279,6 +279,8 @@ func (a *Ast) Print() string {
 		return "{% exit %}"
 	case "region":
 		return "{% " + a.Region + " %}" + printNodes(a.Body) + "{% end" + a.Region + " %}"
+	case "openregion":
+		return "{% " + a.Region + " %}"
 	}
 	panic("ast kind " + a.K)
 }
